@@ -278,7 +278,7 @@ def e2e_stage(res, tier, seed):
 
 def stress_stage(res, tier, seed):
     rt = probe.runtime_probe()
-    nproc = 300 if tier == "quick" else 6000
+    nproc = 300 if tier == "quick" else 12000
     orders = set()
     from concurrent.futures import ThreadPoolExecutor
 
